@@ -445,6 +445,59 @@ def run_positive(ctx, registry):
     ctx.extra["registry_entries_without_synthesiser"] = missing
 
 
+def run_out(ctx):
+    """explicit output targets: `numpoly.f(..., out=t)`, `numpy.f(..., out=t)` and the in-place operator must agree"""
+    rng = ctx.rng("out")
+    import copy
+
+    def target_like(ref):
+        if isinstance(ref, numpoly.ndpoly):
+            return numpoly.ndpoly.from_attributes(ref.exponents, [numpy.zeros_like(c) for c in ref.coefficients], ref.names,
+                                                  dtype=ref.dtype, retain_coefficients=True, retain_names=True)
+        return numpy.zeros_like(numpy.asarray(ref))
+    binary = [("add", operator.iadd), ("subtract", operator.isub), ("multiply", operator.imul), ("less", None), ("equal", None),
+              ("greater_equal", None), ("logical_and", None)]
+    unary = [("negative", None), ("absolute", None), ("isfinite", None)]
+    for _ in range(3 if ctx.quick else 20):
+        a, b = catalogue.build(catalogue.same_pair(rng, kind="int")) if hasattr(catalogue, "same_pair") else (P(rng), P(rng))
+        for name, iop in binary + unary:
+            args = (a, b) if (name, iop) in binary else (a,)
+            try:
+                ref = getattr(numpoly, name)(*args)
+            except Exception:  # noqa: BLE001
+                continue
+            results = []
+            for label, call in (("numpoly.%s(out=)" % name, lambda t: getattr(numpoly, name)(*args, out=t)),
+                                ("numpy.%s(out=)" % name, lambda t: getattr(numpy, name)(*args, out=t))):
+                t = target_like(ref)
+                try:
+                    r = call(t)
+                    results.append((label, "ok", catalogue.canon(r), catalogue.canon(t)))
+                except Exception as err:  # noqa: BLE001
+                    results.append((label, "raises", type(err).__name__, None))
+            if iop is not None and isinstance(ref, numpoly.ndpoly):
+                t = numpoly.ndpoly.from_attributes(ref.exponents, [numpy.zeros_like(c) for c in ref.coefficients], ref.names,
+                                                   dtype=ref.dtype, retain_coefficients=True, retain_names=True)
+                t = t + a if False else t
+                try:
+                    # in-place operator on a target that already holds `a` and has room for every term of the result
+                    t = numpoly.add(t, a, out=target_like(ref))
+                    t2 = iop(t, b)
+                    results.append(("in-place operator", "ok", catalogue.canon(t2), catalogue.canon(t)))
+                except Exception as err:  # noqa: BLE001
+                    results.append(("in-place operator", "raises", type(err).__name__, None))
+            ctx.evaluations += len(results)
+            ctx.count("out-keyword")
+            want = catalogue.canon(ref)
+            for label, status, got, filled in results:
+                case = {"kind": "out", "function": name, "spelling": label}
+                if status != "ok":
+                    ctx.fail(case, f"{label} raises {got} while numpoly.{name}(...) without out= returns a value", ["positive", "out-keyword", f"function:{name}", "raises"])
+                elif got != want or filled != want:
+                    ctx.fail(case, f"{label} returns {str(got)[:120]} / leaves {str(filled)[:120]} in the target; the plain call returns {str(want)[:120]}",
+                             ["positive", "out-keyword", f"function:{name}", "value"])
+
+
 def run(ctx):
     ctx.rule = RULE
     from ..extract import tables
@@ -452,6 +505,7 @@ def run(ctx):
     registry_u = dict(t["ufuncRegistry"])
     registry_f = dict(t["functionRegistry"])
     run_positive(ctx, set(registry_u) | set(registry_f))
+    run_out(ctx)
     run_negative_ufuncs(ctx, registry_u)
     run_negative_functions(ctx, registry_f)
     ctx.exhaustive = True
